@@ -378,7 +378,7 @@ const char* excClass(const std::exception& e)
    return "other";
 }
 
-struct Member { std::string name; int flags; std::vector<std::string> args; std::vector<std::string> cons; std::string subkey; std::string subopts; };
+struct Member { std::string name; int flags; std::vector<std::string> args; std::vector<std::string> cons; std::string subkey; std::string subopts; bool valueHandler = false; };
 
 // "split:<hex>" : appl::make_arg_array on the string, both constructors
 std::string run_split(const std::string& text)
@@ -423,11 +423,14 @@ std::string run_case(const std::vector<std::string>& w)
          members.push_back({ "", std::stoi(p.at(2).substr(2)), {}, {}, p.at(1), p.size() > 3 ? p.at(3) : std::string() });
       }
       else if (tok.rfind("GS:f=", 0) == 0) groupFlags = std::stoi(tok.substr(5));   // flags of the Groups singleton
-      else if (tok.rfind("G:", 0) == 0)
+      else if (tok.rfind("G:", 0) == 0 || tok.rfind("GV:", 0) == 0)
       {
+         // G:<name>:f=<flags> a member handler of the group; GV: the same as a value handler
+         // (Groups::getArgValueHandler)
          useGroups = true;
          auto p = vf::split(tok, ':');
          members.push_back({ p.at(1), std::stoi(p.at(2).substr(2)), {}, {} });
+         members.back().valueHandler = tok[1] == 'V';
       }
       else if (tok.rfind("arg:", 0) == 0 || tok.rfind("probe:", 0) == 0) members.back().args.push_back(tok);
       else if (tok.rfind("late:arg:", 0) == 0) lateArgs.push_back(tok.substr(5));   // defined on the owner after the sub-groups
@@ -496,16 +499,25 @@ std::string run_case(const std::vector<std::string>& w)
       // of that member) after all handlers were created
       std::vector<pa::Handler*> hs;
       pa::Handler* lastMember = nullptr;
+      pa::Handler* lastCreatedMember = nullptr;
       auto create = [&](Member& m) {
          pa::Handler* h;
          if (useGroups && m.subkey.empty())
          {
-            auto sp = pa::Groups::instance().getArgHandler(m.name, m.flags);
+            auto sp = m.valueHandler ? pa::Groups::instance().getArgValueHandler(m.name, m.flags)
+                                     : pa::Groups::instance().getArgHandler(m.name, m.flags);
             shared.push_back(sp);
             h = sp.get();
+            lastCreatedMember = h;
          } else
          {
-            owned.emplace_back(new pa::Handler(out, err, m.flags));
+            // a sub-group handler is created like any handler, or - option "subctor" - with the constructor for
+            // sub-groups that takes the streams and some settings from its main handler
+            pa::Handler* owner = useGroups ? lastCreatedMember : single;
+            if (!m.subkey.empty() && m.subopts.find("subctor") != std::string::npos && owner != nullptr)
+               owned.emplace_back(new pa::Handler(*owner, m.flags));
+            else
+               owned.emplace_back(new pa::Handler(out, err, m.flags));
             h = owned.back().get();
             if (m.subkey.empty()) single = h;
          }
@@ -590,7 +602,7 @@ std::string run_case(const std::vector<std::string>& w)
                pa::Handler* owner = useGroups ? lastMember : single;
                if (owner == nullptr) throw std::invalid_argument("sub-group without main handler");
                TypedArgBase* sga = owner->addArgument(m.subkey, *hs.back(), "sub-group " + m.subkey);
-               for (auto& o : vf::split(m.subopts, '/')) if (!o.empty()) applyOption(sga, "sub0", o);
+               for (auto& o : vf::split(m.subopts, '/')) if (!o.empty() && o != "subctor") applyOption(sga, "sub0", o);
             } else
                lastMember = hs.back();
          }
